@@ -41,6 +41,8 @@ pub fn cfg_from(sc: &Value) -> Cfg {
         burst: b("burst", true),
         reentrant: b("reentrant", false),
         passive: b("passive", false),
+        max_react: u("maxReact", 1),
+        cross: b("cross", false),
         nsinks: c.get("sinks").and_then(|x| x.as_array()).map(|a| a.len()).unwrap_or(1),
     }
 }
